@@ -19,9 +19,29 @@ AST (plain tuples):
 import html
 import io
 import itertools
+import signal
 import wsgiref.util
 
 from harness.core import hb, hs
+
+class HangB(BaseException):
+    """raised by the watchdog; not an `Exception`, so the catch-all clauses of the code under test
+    cannot swallow it"""
+
+
+def watchdog(fn, seconds=20):
+    """run fn(); a call that does not finish is abandoned with `HangB` (the timer keeps firing
+    every second until the call has really been left)"""
+    def _h(sig, frm):
+        raise HangB()
+    old = signal.signal(signal.SIGALRM, _h)
+    signal.setitimer(signal.ITIMER_REAL, seconds, 1.0)
+    try:
+        return fn()
+    finally:
+        signal.setitimer(signal.ITIMER_REAL, 0)
+        signal.signal(signal.SIGALRM, old)
+
 
 FALSY = {'str': '', 'bytes': b'', 'none': None, 'zero': 0, 'list': [], 'false': False, 'dict': {}}
 UNSUP = {'int': 42, 'float': 1.5, 'object': None}     # object built fresh
